@@ -10,4 +10,6 @@ CONSTANTS
   MaxViews = 0
   Menu = "tags"
   Invalid = FALSE
+  Crashes = FALSE
+  Restarts = FALSE
 INVARIANTS GraphWellFormed NoUseAfterFree Balanced DirExactWhenQuiet ViewComplete OneIdPerConn NeverStuck FlagsMatchJobs NeverStale
